@@ -397,6 +397,11 @@ impl<R: Read> Reader<R> {
         })
     }
 
+    /// Returns what kind of entry this is (a named cpio entry or a stripped one carrying a file index).
+    pub fn entry(&self) -> &RpmPayloadEntry {
+        &self.entry
+    }
+
     /// Returns the metadata for this entry.
     pub fn is_trailer(&self) -> bool {
         match &self.entry {
